@@ -52,7 +52,14 @@ NearMiss2(j, pt, d, k, e) == NearMiss3(j, pt, d, k, e, BAddMod(e, MulN(k, G)[1],
 NearMiss(j) == IF j = 1 THEN NearMiss2(j, MulN(Dof(j), G), Dof(j), Kof(j), BMod(BFromBE(Seed(j, 13)), NN)) ELSE <<>>
 TZero2(j, pt, r, s) == << Forge4("t=0", pt, BSubMod(r, MulN(s, G)[1], NN), r, s, FALSE) >>
 TZero(j) == TZero2(j, MulN(Dof(j), G), Kof(j), BSub(NN, Kof(j)))
+\* zero components, CONSISTENT by construction (no private key needed): (r, 0) with e = r - x([r]P), and (0, s) with e = -x([s](G + P));
+\* the recomputed R equals r, so only the range tests 1 <= r, s <= n-1 reject them.  Also with n in place of 0.
+ZeroS3(j, pt, r, x1) == << Forge4("s=0", pt, BSubMod(r, x1, NN), r, BZero, FALSE), Forge4("s=n", pt, BSubMod(r, x1, NN), r, NN, FALSE) >>
+ZeroS2(j, pt, r) == ZeroS3(j, pt, r, BMod(MulN(r, pt)[1], NN))
+ZeroR3(j, pt, s, x1) == << Forge4("r=0", pt, BSubMod(BZero, x1, NN), BZero, s, FALSE), Forge4("r=n", pt, BSubMod(BZero, x1, NN), NN, s, FALSE) >>
+ZeroR2(j, pt, s) == ZeroR3(j, pt, s, BMod(MulN(s, C!PAdd(G, pt))[1], NN))
+ZeroCases(j) == ZeroS2(j, MulN(Dof(j), G), Kof(j)) \o ZeroR2(j, MulN(Dof(j), G), Kof(j))
 Init == pidx = 0 /\ pout = <<>>
-Next == pidx < NK /\ pidx' = pidx + 1 /\ pout' = <<Honest(pidx + 1)>> \o SmallS(pidx + 1) \o SmallR(pidx + 1) \o TZero(pidx + 1) \o InfCase(pidx + 1) \o RetryCases(pidx + 1) \o NearMiss(pidx + 1)
+Next == pidx < NK /\ pidx' = pidx + 1 /\ pout' = <<Honest(pidx + 1)>> \o SmallS(pidx + 1) \o SmallR(pidx + 1) \o TZero(pidx + 1) \o InfCase(pidx + 1) \o RetryCases(pidx + 1) \o NearMiss(pidx + 1) \o ZeroCases(pidx + 1)
 Emit == \A j \in 1..Len(pout) : PrintT(<<"PLAN", ToJson(pout[j])>>)
 =============================================================================
